@@ -529,6 +529,77 @@ pub unsafe extern "C" fn getenv(name: *const libc::c_char) -> *mut libc::c_char 
     std::ptr::null_mut()
 }
 
+// Directory listings: `read_dir` goes through `opendir`. Which directories do the calls list?
+// (Existing or not: the driver puts near misses and conventional neighbours into them for a
+// second execution.)
+
+thread_local! {
+    static DIR_PROBES: RefCell<Option<Vec<String>>> = const { RefCell::new(None) };
+}
+
+pub fn set_dir_probe_recording(on: bool) {
+    let _ = DIR_PROBES.try_with(|p| {
+        if let Ok(mut p) = p.try_borrow_mut() {
+            if on {
+                if p.is_none() {
+                    *p = Some(Vec::new());
+                }
+            } else {
+                *p = None;
+            }
+        }
+    });
+}
+
+pub fn take_dir_probes() -> Vec<String> {
+    DIR_PROBES
+        .try_with(|p| p.try_borrow_mut().ok().and_then(|mut p| p.as_mut().map(std::mem::take)))
+        .ok()
+        .flatten()
+        .unwrap_or_default()
+}
+
+#[no_mangle]
+pub unsafe extern "C" fn opendir(name: *const libc::c_char) -> *mut libc::DIR {
+    static REAL: AtomicUsize = AtomicUsize::new(0);
+    let mut real = REAL.load(Ordering::Relaxed);
+    if real == 0 {
+        real = libc::dlsym(libc::RTLD_NEXT, c"opendir".as_ptr()) as usize;
+        if real == 0 {
+            *libc::__errno_location() = libc::ENOSYS;
+            return std::ptr::null_mut();
+        }
+        REAL.store(real, Ordering::Relaxed);
+    }
+    if !name.is_null() {
+        let _quiet = AllocPointsSuspended::new();
+        let _ = DIR_PROBES.try_with(|p| {
+            if let Ok(mut p) = p.try_borrow_mut() {
+                if let Some(list) = p.as_mut() {
+                    let text = std::ffi::CStr::from_ptr(name).to_string_lossy().into_owned();
+                    let absolute = if text.starts_with('/') {
+                        Some(text)
+                    } else {
+                        let mut buf = [0u8; 4096];
+                        let n = libc::syscall(libc::SYS_getcwd, buf.as_mut_ptr(), buf.len());
+                        (n > 0).then(|| {
+                            let cwd = std::ffi::CStr::from_ptr(buf.as_ptr() as *const libc::c_char).to_string_lossy();
+                            format!("{}/{}", cwd.trim_end_matches('/'), text)
+                        })
+                    };
+                    if let Some(a) = absolute {
+                        if list.len() < 32 && !list.contains(&a) {
+                            list.push(a);
+                        }
+                    }
+                }
+            }
+        });
+    }
+    let real: unsafe extern "C" fn(*const libc::c_char) -> *mut libc::DIR = std::mem::transmute(real);
+    real(name)
+}
+
 unsafe fn errno() -> libc::c_int {
     *libc::__errno_location()
 }
